@@ -17,6 +17,9 @@ import VsgProofs.Lemmas.BaseBlankLine
 import VsgProofs.Lemmas.BaseBindDispatch
 import VsgProofs.Lemmas.BaseBindEffects
 import VsgProofs.Lemmas.PostPhase1
+import VsgModel.Generated.CaseRules
+import VsgProofs.Lemmas.BaseCaseTok
+import VsgProofs.Lemmas.BaseCaseAscii
 namespace Vsgm.C03
 open Vsgm
 
@@ -539,5 +542,204 @@ example : Post.fixBlankLines Gen.blankCls [⟨Gen.wsCls, .ws, [' ']⟩, ⟨Gen.c
 example : Post.noWsWsCr [⟨Gen.wsCls, .ws, [' ']⟩, ⟨Gen.crCls, .cr, ['\n']⟩] = true := by decide
 
 /-! ### END ag_bind -/
+
+/-! ### BEGIN ag_bcase (case family, B-full) -/
+
+/-! ### layer B, the CASE family (phase 6: 259 rules, five `_fix_violation` owners)
+
+`_fix_violation` writes `dAction["value"]` — whatever string the analysis computed — into one
+token, so the effect class is a property of analysis + fix (B-full), not of the fix alone. -/
+
+section caseFamily
+open Base Base.Case
+
+/-- the fix alone, for ALL actions: the region keeps its length, every token class and kind;
+    at most one token's value is replaced -/
+theorem bfix_case_shape (owner : String) (params action : Base.KV) (old new : List Tok)
+    (ho : owner ∈ Base.caseOwners) (h : Base.fixByOwner owner params action old = some (.ok new)) :
+    new.map (fun t => (t.cls, t.kind)) = old.map (fun t => (t.cls, t.kind)) ∧ new.length = old.length ∧
+      (new = old ∨ ∃ k t e, old[k]? = some t ∧ new = old.set k { t with val := e }) := by
+  have hs := Base.fixByOwner_case_shape owner ho params action old new h
+  rcases hs with rfl | ⟨k, t, e, hk, rfl⟩
+  · exact ⟨rfl, rfl, .inl rfl⟩
+  · exact ⟨Base.set_val_shape old k t e hk, by simp, .inr ⟨k, t, e, hk, rfl⟩⟩
+
+/-- … and that is all one can say about the fix alone: it is NOT case-only for every action -/
+theorem bfix_case_not_caseOnly_for_all_actions :
+    ∃ (action : Base.KV) (old new : List Tok),
+      Base.fixByOwner "vsg.rules.token_case.token_case" [] action old = some (.ok new) ∧
+      ¬ CaseOnly asciiLowerS old new :=
+  ⟨[("value", .str "xyz".toList), ("index", .int 0)], [⟨0, .code, "Abc".toList⟩], [⟨0, .code, "xyz".toList⟩],
+    by decide +kernel, by decide +kernel⟩
+
+/-- B-FULL, `token_case` (243 rules): for EVERY parameter setting (case style, prefix / suffix / whole
+    word exceptions), EVERY region and the action the analysis of that region produces, the fix is
+    case-only: it keeps the token count, every class, the code sequence and every comment, and the
+    changed value has the same length.  Hypotheses: the character tables (`CharWise`, discharged for
+    ASCII below) and `TokOk` for the analysed token — a code token, NOT AN EXTENDED IDENTIFIER. -/
+theorem bfull_case_caseOnly {E : Env} {fold : Str → Str} {lc uc fc : Char → Char}
+    (T : CharWise E fold lc uc fc) (owner : String) (ho : owner ∈ Base.caseTokenOwners)
+    (params : Base.KV) (p : Params) (old new : List Tok) (a : Action)
+    (hok : ∀ t, old[0]? = some t → TokOk p t)
+    (ha : TokenCase.analyzeToi E p old = .ok (some a))
+    (hf : Base.fixByOwner owner params (Base.caseActionKV a) old = some (.ok new)) :
+    CaseOnly fold old new ∧ old.length = new.length ∧
+      old.map (fun t => (t.cls, t.kind)) = new.map (fun t => (t.cls, t.kind)) ∧
+      codeSeq fold old = codeSeq fold new ∧ commentSeq old = commentSeq new := by
+  rw [Base.fixByOwner_tokenCase owner ho] at hf
+  simp only [Option.some.injEq] at hf
+  have h := TokenCase.analyze_fix_caseOnly T p old new a hok ha hf
+  exact ⟨h, h.length fold, caseOnly_classes fold h, h.codeSeq fold, h.commentSeq fold⟩
+
+/-- the same with the table hypotheses discharged: ASCII `lower` / `upper`, fold = ASCII lower -/
+theorem bfull_case_caseOnly_ascii (fm : String → Str → Bool) (owner : String)
+    (ho : owner ∈ Base.caseTokenOwners) (params : Base.KV) (p : Params) (old new : List Tok) (a : Action)
+    (hok : ∀ t, old[0]? = some t → TokOk p t)
+    (ha : TokenCase.analyzeToi (asciiEnv fm) p old = .ok (some a))
+    (hf : Base.fixByOwner owner params (Base.caseActionKV a) old = some (.ok new)) :
+    CaseOnly asciiLowerS old new :=
+  (bfull_case_caseOnly (ascii_charWise fm) owner ho params p old new a hok ha hf).1
+
+/-- string and character literals never reach the fix: a value that starts with `"` or `'` is
+    skipped by the analysis of every rule that is not named `bit_string_literal` (commit da18b98) -/
+theorem bfull_case_literal_skipped (E : Env) (p : Params) (l : List Tok) (t : Tok)
+    (hn : p.name ≠ bitStringLiteral) (h0 : l[0]? = some t) (hq : doesNotContainAnyAlpha t.val = true) :
+    TokenCase.analyzeToi E p l = .ok none := by
+  unfold TokenCase.analyzeToi
+  have hg : pyGet l 0 = .ok t := by
+    cases l with
+    | nil => simp at h0
+    | cons x l =>
+      simp only [List.getElem?_cons_zero, Option.some.injEq] at h0
+      subst h0
+      unfold pyGet pyIdx
+      simp
+  simp only [hg, bind, Except.bind]
+  exact check_skip (by simp [hn, hq])
+
+/-- EXCLUDED CASE of `TokOk`, proved on the model: an extended identifier IS rewritten
+    (`\Ab\` → `\ab\` under the default `case: lower`), which is not a case-only change
+    because extended identifiers compare exactly.  Reproduced on the real code. -/
+theorem bfull_case_extended_identifier_changed :
+    ∃ (p : Params) (old new : List Tok) (a : Action),
+      TokenCase.analyzeToi (asciiEnv fun _ _ => false) p old = .ok (some a) ∧
+      Base.fixByOwner "vsg.rules.token_case.token_case" [] (Base.caseActionKV a) old = some (.ok new) ∧
+      ¬ CaseOnly asciiLowerS old new :=
+  ⟨{ name := "signal".toList, style := .lower, prefixes := [], suffixes := [], exceptions := [] },
+    [⟨0, .code, "\\Ab\\".toList⟩], [⟨0, .code, "\\ab\\".toList⟩],
+    { value := some "\\ab\\".toList, index := 0 }, by decide +kernel, by decide +kernel, by decide +kernel⟩
+
+/-- B-FULL, formal parts of port / generic maps (2 rules) — PARTIAL: no word twice in different case
+    in `case_exceptions` -/
+theorem bfull_case_formal_caseOnly_partial {E : Env} {fold : Str → Str} {lc uc fc : Char → Char}
+    (T : CharWise E fold lc uc fc) (owner : String) (ho : owner ∈ Base.caseFormalOwners)
+    (params : Base.KV) (c : FormalPart.Classes) (p : Params) (old new : List Tok) (acts : List Action)
+    (a : Action) (hnd : NoCaseDup E p.exceptions)
+    (hok : ∀ t ∈ old, t.cls = c.formal → TokOk p t)
+    (ha : FormalPart.analyzeToi E c p old = .ok acts) (hm : a ∈ acts)
+    (hf : Base.fixByOwner owner params (Base.caseActionKV a) old = some (.ok new)) :
+    CaseOnly fold old new ∧ old.length = new.length ∧
+      codeSeq fold old = codeSeq fold new ∧ commentSeq old = commentSeq new := by
+  rw [Base.fixByOwner_formal owner ho] at hf
+  simp only [Option.some.injEq] at hf
+  have h := FormalPart.analyze_fix_caseOnly_partial T c p old new acts a hnd hok ha hm hf
+  exact ⟨h, h.length fold, h.codeSeq fold, h.commentSeq fold⟩
+
+/-- EXCLUDED CASE of the partial theorem, proved on the model: with `case_exceptions: [Clk, CLK]`
+    `check_for_exception` records the position of the word in that list (0) as the token index and
+    the fix overwrites token 0 of the region — the instantiation label.  Reproduced on the real code. -/
+theorem bfull_case_formal_index_witness :
+    ∃ (c : FormalPart.Classes) (p : Params) (old new : List Tok) (a : Action),
+      FormalPart.analyzeToi (asciiEnv fun _ _ => false) c p old = .ok [a] ∧
+      Base.fixByOwner Base.caseFormalOwners.head! [] (Base.caseActionKV a) old = some (.ok new) ∧
+      codeSeq asciiLowerS old ≠ codeSeq asciiLowerS new :=
+  ⟨{ mapStart := 1, mapEnd := 2, formal := 3, assign := 4 },
+    { name := "port_map".toList, style := .lower, prefixes := [], suffixes := [], exceptions := ["Clk".toList, "CLK".toList] },
+    [⟨0, .code, "u_x".toList⟩, ⟨1, .code, "(".toList⟩, ⟨3, .code, "CLK".toList⟩, ⟨4, .code, "=>".toList⟩],
+    [⟨0, .code, "Clk".toList⟩, ⟨1, .code, "(".toList⟩, ⟨3, .code, "CLK".toList⟩, ⟨4, .code, "=>".toList⟩],
+    { value := some "Clk".toList, index := 0 }, by decide +kernel, by decide +kernel, by decide +kernel⟩
+
+/-- B-FULL (value part), `consistent_token_case` (10 rules): the expected spelling is the first
+    declared identifier that equals the name after `lower()` -/
+theorem bfull_case_consistent_caseOnly {E : Env} {fold : Str → Str} {lc uc fc : Char → Char}
+    (T : CharWise E fold lc uc fc) (owner : String) (ho : owner ∈ Base.caseConsistentOwners)
+    (params : Base.KV) (ids : List Str) (old new : List Tok) (t : Tok) (e : Str)
+    (h0 : old[0]? = some t) (hc : t.isCode = true) (hx : t.exact = false)
+    (he : Consistent.expectedFirst E ids t.val = some e)
+    (hf : Base.fixByOwner owner params (Base.consistentActionKV "expected" e) old = some (.ok new)) :
+    CaseOnly fold old new := by
+  rw [Base.fixByOwner_consistent owner ho] at hf
+  simp only [Option.some.injEq] at hf
+  exact Consistent.first_fix_caseOnly T ids old new t e h0 hc hx he hf
+
+/-- B-FULL (value part), `consistent_interface_token_case` / `consistent_subprogram_parameter_token_case`
+    (4 rules): the expected spelling is the last declared name that equals the token after `lower()` -/
+theorem bfull_case_interface_caseOnly {E : Env} {fold : Str → Str} {lc uc fc : Char → Char}
+    (T : CharWise E fold lc uc fc) (owner : String) (ho : owner ∈ Base.caseInterfaceOwners)
+    (params : Base.KV) (ids : List Str) (old new : List Tok) (t : Tok) (e : Str)
+    (h0 : old[0]? = some t) (hc : t.isCode = true) (hx : t.exact = false)
+    (he : Consistent.expectedMap E ids t.val = .ok (some e))
+    (hf : Base.fixByOwner owner params (Base.consistentActionKV "value" e) old = some (.ok new)) :
+    CaseOnly fold old new := by
+  rw [Base.fixByOwner_interface owner ho] at hf
+  simp only [Option.some.injEq] at hf
+  exact Consistent.map_fix_caseOnly T ids old new t e h0 hc hx he hf
+
+/-- the table hypotheses are satisfiable: ASCII -/
+theorem case_tables_ascii (fm : String → Str → Bool) :
+    CharWiseIdem (asciiEnv fm) asciiLowerS asciiLowerC asciiUpperC asciiLowerC := ascii_charWiseIdem fm
+
+/-- … and they are FALSE for CPython's `str.upper()` as soon as one of the code points of the
+    generated table `Gen.upperMultiMap` occurs: 'ß' ↦ "SS" changes the length -/
+theorem case_tables_cpython_eszett :
+    Gen.upperMultiMap.lookup 223 = some [83, 83] ∧ (∀ e ∈ Gen.upperMultiMap, 2 ≤ e.2.length) :=
+  ⟨cpython_upper_eszett, cpython_multi_longer.1⟩
+
+/-- on ASCII strings the CPython model of the driver IS the ASCII map (and the ASCII rows of the
+    generated CPython tables are exactly A–Z ↔ a–z: `ascii_agrees_with_cpython_tables`); on a
+    request whose strings are all ASCII the driver mode `caseu` runs the very environment the
+    theorems above are instantiated with -/
+theorem case_tables_cpython_ascii :
+    (∀ v : Str, isAsciiS v = true → pyLowerS v = asciiLowerS v ∧ pyUpperS v = asciiUpperS v) ∧
+    (∀ (strings : List Str) (fm : String → Str → Bool), strings.all isAsciiS = true →
+      envFor strings fm = asciiEnv fm) ∧
+    Gen.lowerPairs.filter (fun p => p.1 < 128) = (List.range 26).map (fun i => (65 + i, 97 + i)) ∧
+    Gen.upperPairs.filter (fun p => p.1 < 128) = (List.range 26).map (fun i => (97 + i, 65 + i)) :=
+  ⟨fun v h => ⟨pyLowerS_ascii v h, pyUpperS_ascii v h⟩, envFor_ascii,
+    ascii_agrees_with_cpython_tables.1, ascii_agrees_with_cpython_tables.2.1⟩
+
+/-- every rule whose `_fix_violation` is one of the five owners is a documented case rule -/
+theorem case_owners_are_case_rules : ∀ r ∈ Gen.ruleTable, r.fixVOwner ∈ Base.caseOwners →
+    Verdict.effectOfGroups r.groups = .case := by decide +kernel
+
+/-- … and conversely every phase-6 rule is served by one of the five models -/
+theorem case_rules_are_modelled : ∀ r ∈ Gen.ruleTable, r.phase = 6 → r.fixVOwner ∈ Base.caseOwners := by
+  decide +kernel
+
+/-- the classes a case rule can report are code classes (hypothesis `TokOk.code`), and the two
+    `bit_string_literal` rules look at the base specifier and the (case-insensitive) value string -/
+theorem case_rule_targets_are_code : ∀ r ∈ Gen.caseRuleTable,
+    (∀ c ∈ r.targets, Wire.kindOfCls c = .code ∨ Wire.kindOfCls c = .codeCI) ∧
+    (r.name = "bit_string_literal" → ∀ c ∈ r.targets,
+      c = Gen.bitStringBaseSpecifierCls ∨ (c = Gen.bitStringValueCls ∧ Wire.kindOfCls c = .codeCI)) := by
+  decide +kernel
+
+end caseFamily
+
+/-! ### END ag_bcase -/
+
+/-! ### BEGIN ag_bcase (case family, B-full) -/
+example : ∃ r ∈ Gen.ruleTable, r.fixVOwner ∈ Base.caseOwners := by decide +kernel
+example : ∃ r ∈ Gen.caseRuleTable, r.name = "bit_string_literal" := by decide +kernel
+/-- the hypotheses of `bfull_case_caseOnly` are satisfiable and the conclusion is not trivial:
+    `Abc` under `case: upper` with prefix exception `a` becomes `aBC` -/
+example : ∃ (p : Base.Case.Params) (old new : List Tok) (a : Base.Case.Action),
+    Base.Case.TokenCase.analyzeToi (Base.Case.asciiEnv fun _ _ => false) p old = .ok (some a) ∧
+    Base.fixByOwner "vsg.rules.token_case.token_case" [] (Base.caseActionKV a) old = some (.ok new) ∧
+    new ≠ old ∧ (∀ t, old[0]? = some t → t.isCode = true ∧ t.val.head? ≠ some '\\') :=
+  ⟨{ name := "signal".toList, style := .upper, prefixes := ["a".toList], suffixes := [], exceptions := [] },
+    [⟨0, .code, "Abc".toList⟩], [⟨0, .code, "aBC".toList⟩], { value := some "aBC".toList, index := 0 },
+    by decide +kernel, by decide +kernel, by decide +kernel, by decide +kernel⟩
+/-! ### END ag_bcase -/
 
 end Vsgm.C03
